@@ -41,6 +41,47 @@ check("C18", "model_checking",
       "explicit-state search to fixpoint on the real object by replay + loom stateless model checking with brute-force linearizability",
       "DESIGN.md §5 C18", "mc+lm")
 
+check("C01", "model_checking",
+      "Bounded-exhaustive enumeration of messages (header fields over boundary classes incl. the full product in thorough, 17x17 query/body lengths to 64 KiB, 5 body-capacity relations hitting both into_wire_bytes paths, builder-made typed/complex/aligned bodies) through every emission route (to_vec, write_to, into_wire_bytes, write_message, write_message_streaming, typed/complex writers, write_message_async, short-write sinks, and the bytes received from Server, AsyncServer and the WebSocket server inline/off-reader) against an independent field-table encoder that is itself anchored on the interop fixtures; every parser/reader must return the original fields.",
+      "Payload contents use one pattern per length; client-side senders are covered by C04/C05. Fixture files anchor the oracle.",
+      "bounded-exhaustive input/configuration enumeration of the real encoders/parsers against an independent oracle",
+      "DESIGN.md §5 C01", "mc")
+check("C02", "model_checking",
+      "Every input of five families (three length fields over 29-41 boundary classes x spec x buffer lengths; every single-byte mutation, truncation and field replacement of 40-52 valid frames; two-frame streams cut at every byte; raw strings of every length; headers declaring 16 MiB or >= 2^62) is executed on all ten parsing/reading entry points (33 slots: read sizes 1/7/48/all, reused buffers, Pending-interleaved async) inside child processes; a panic, abort or hang, an accepted inconsistent frame, or returned bytes that are not the input's are violations (u128 reference parser). A second phase sends hostile headers over loopback TCP to Server/AsyncServer and as responses to Client/AsyncClient.",
+      "Strings up to 4 KiB are covered as boundary classes and exhaustive single-point mutations, not all 2^32768 strings. Stream readers only get declared sizes <= 16 MiB or >= 2^62 as the property fixes.",
+      "bounded-exhaustive input enumeration with child-process isolation against a reference parser",
+      "DESIGN.md §5 C02", "mc")
+check("C03", "model_checking",
+      "All pipelines over a 52-letter request alphabet (every handler kind incl. blocking/middleware-wrapped/registry/struct/custom-erased, every body-format code with well-formed and malformed bodies, bad versions, query formats, non-UTF-8 and unknown paths, notify twins): every letter, every ordered pair, triples over a sub-alphabet, each letter x64 (+ pairs around 62 echoes in thorough), each written in one burst on a fresh connection of four real servers (blocking TCP, async TCP, async over an in-memory stream, WebSocket with inline and off-reader routes). Everything received until the server closes is matched by id against a reference model (exactly one response per request, none for notifies, specified error codes, query echo, arrival order of inline responses, same fields on every transport) and handler/middleware invocation counters are compared per pipeline.",
+      "Handlers are deterministic; TCP rows use real loopback sockets with a 10 s watchdog on predicted events only. Sequences of more than three distinct letters only in the repeated/embedded forms.",
+      "bounded-exhaustive enumeration of request pipelines against running endpoints with a reference model",
+      "DESIGN.md §5 C03", "mc")
+check("C07", "model_checking",
+      "Three exhaustively enumerated sub-spaces driven through Router::get + handle/handle_with_ctx/handle_view (view at buffer offsets 0..7): (A1) 15 handler kinds x 6 body formats x hundreds of bodies incl. all 1- and 2-byte strings x 6 middleware configurations; (A2) all 120 registration orders of {route, registry mount, struct mount, 2 middlewares} x mount prefixes x 92 request paths against a reference router; (A3) struct segment tokenisation for depths 0..40 with escapes on both sides of the 16-segment boundary against an independent RFC 6901 tokenizer.",
+      "Precedence between a registry and a struct mount that both match is unspecified and not checked; malformed escapes are outside the quantifier.",
+      "bounded-exhaustive input/configuration enumeration with differential and reference-model oracles",
+      "DESIGN.md §5 C07", "mc")
+check("C10", "fault_enumeration",
+      "Three parts, no source hooks: (1) every in-process fault (producer failure after every byte, connection cut after/on every response, error to open, missing last, rejecting/tampered verifier, trailer longer than or equal to the stream, unpublishable destination) x 9 pullers x compression x destination absent/pre-existing against the real SVS engine; (2) the pulling process is SIGKILLed (strace inject) at every file-system syscall and at every receive of the recorded history; (3) for every prefix of the recorded write/fsync/rename history and every subset of unsynced writes dropped, a file-system model computes the destination: it must be the old or the complete new content.",
+      "POSIX rename atomicity; directory fsync not demanded; kill points are syscall entries; transport faults are frame-granular.",
+      "exhaustive fault and crash-point enumeration (in-process faults, kill at every syscall, crash-state model over the traced history)",
+      "DESIGN.md §5 C10", "mc")
+check("C15", "fault_enumeration",
+      "Every meaningful (exit cause x connection phase) cell - 14 causes (close, drop, cut, text, bad header, trailing bytes, inline/off-reader/connect-hook panics, cancel, abort, drain) x 5 phases (idle, inline parked, off-reader parked, outbound queue full, during connect hooks) - on all serve_connection* entry points over in-memory streams, all ordered pairs and triples of cells on 2-3 connections, N same-cell connections, and the built-in accept loops (serve_listener, graceful drain, failed handshakes) over loopback TCP; an event log of all hooks, handlers and registry samples is checked per connection.",
+      "tokio multi-thread scheduler interleavings are not enumerated; the drain deadline ZERO is one timer tick.",
+      "exhaustive exit-cause x phase enumeration against running connections with an event-log oracle",
+      "DESIGN.md §5 C15", "mc")
+check("C16", "model_checking",
+      "Explicit-state search over event sequences (off-reader request returning/erroring/panicking, off-reader notify, inline request, release of any parked handler, bursts) to depth 5-6 (quick) / 6-7 (thorough) for caps 1,2,3 (+16 and unlimited in thorough), plain and middleware-wrapped blocking routes; each sequence is replayed on a fresh in-memory WebSocket connection with gated handlers and compared, after every event, with a counter automaton (saturation replies, dropped notifies, inline liveness, slot release on every exit incl. panic, gauge <= cap).",
+      "Handlers park on gates (no CPU-bound timing); one connection per scenario; tokio's blocking pool always has a free thread for a permitted handler.",
+      "explicit-state enumeration of event sequences replayed on the real server against a reference automaton",
+      "DESIGN.md §5 C16", "mc")
+check("C17", "model_checking",
+      "Every (limit, total size in limit-2..limit+2 plus 48, limit/2, 2*limit, placement of the excess in query/body/both) case on each of ten outbound paths (inline and off-reader responses, handler-pushed notify, four registry broadcasts, proxy-forwarded response, WebSocket client call and notify) over in-memory streams on a paused clock; every binary message seen by the raw peer must be within the limit, unchanged when it fits, replaced/dropped+reported/refused locally otherwise, and the connection must serve a following echo.",
+      "The writer's shutdown-drain call site of the guard is not scripted.",
+      "bounded-exhaustive input/configuration enumeration against running endpoints",
+      "DESIGN.md §5 C17", "mc")
+
 ALL = [f"C{i:02d}" for i in range(1, 20)]
 for pid in ALL:
     if pid not in CHECKS:
